@@ -1,5 +1,6 @@
 import Memterm.Props.C18
 import Memterm.Spec.C15
+import Memterm.Proofs.StackExt
 
 /-
   C15 — RIS returns the terminal to its power-on state.
@@ -49,6 +50,59 @@ theorem C15_holds (env : Env) (cands : List Nat) (s : Screen) (c : Call) (h : In
   case reset =>
     simp only [propC15, step, reset_eq s h.rows]
     simp [sameSettingsB, sameCellsB, powerOn]
+
+/-- RIS gives a new screen sitting on top of the old saved-cursor stack -/
+theorem reset_is_ext (s : Screen) (hl : 1 ≤ s.lines) :
+    reset s = ext (init s.columns s.lines) s.savepoints := by
+  rw [reset_is_new_screen s hl]
+  have h0 : (init s.columns s.lines).savepoints = [] := by rw [init_eq _ _ hl]; rfl
+  unfold ext
+  rw [h0]
+  rfl
+
+/-- THE CONTINUATION CLAUSE.  From RIS on, the same input produces the same state as on a new
+    screen of the current dimensions, the saved-cursor stack being the one thing RIS leaves
+    alone: for every history `cs` (any length, any operations, any arguments) that does not pop
+    below the stack a new screen starts with, the run after RIS equals the run on the new screen
+    with the old stack appended underneath - every other component of the state is identical. -/
+theorem reset_continuation (env : Env) (s : Screen) (hl : 1 ≤ s.lines) (cs : List Call)
+    (h : noEmptyRestore env (init s.columns s.lines) cs = true) :
+    run env (reset s) cs = ext (run env (init s.columns s.lines) cs) s.savepoints := by
+  rw [reset_is_ext s hl]
+  exact run_ext env cs _ _ h
+
+/-- spelled out: after RIS + `cs` every observable component other than the stack equals the one
+    reached by `cs` on a new screen, and the stack is the new screen's with the old one below -/
+theorem reset_continuation_fields (env : Env) (s : Screen) (hl : 1 ≤ s.lines) (cs : List Call)
+    (h : noEmptyRestore env (init s.columns s.lines) cs = true) :
+    let a := run env (reset s) cs
+    let b := run env (init s.columns s.lines) cs
+    a.columns = b.columns ∧ a.lines = b.lines ∧ a.cursor = b.cursor ∧ a.margins = b.margins ∧
+    a.mode = b.mode ∧ a.tabstops = b.tabstops ∧ a.dirty = b.dirty ∧ a.title = b.title ∧
+    a.icon = b.icon ∧ a.g0 = b.g0 ∧ a.g1 = b.g1 ∧ a.g1Active = b.g1Active ∧
+    a.savedColumns = b.savedColumns ∧ a.cell = b.cell ∧
+    display env a = display env b ∧ a.savepoints = b.savepoints ++ s.savepoints := by
+  intro a b
+  have hab : a = ext b s.savepoints := reset_continuation env s hl cs h
+  rw [hab]
+  exact ⟨rfl, rfl, rfl, rfl, rfl, rfl, rfl, rfl, rfl, rfl, rfl, rfl, rfl, rfl, display_ext _ _ _, rfl⟩
+
+/-- the hypothesis is needed and is exactly the exception the property names: a DECRC that
+    reaches the stack RIS left alone restores what was saved before the reset -/
+example :
+    let env : Env := { W := fun _ => 1, CM := fun _ => false, NFC := id }
+    let s := run env (init 4 3) [.cursorPosition (some 2) (some 3), .saveCursor]
+    (run env (reset s) [.restoreCursor]).cursor.y = 1 ∧
+    (run env (init 4 3) [.restoreCursor]).cursor.y = 0 ∧
+    noEmptyRestore env (init 4 3) [.restoreCursor] = false := by
+  decide
+
+/-- non-vacuity of the continuation theorem: a history with nested, balanced DECSC/DECRC and a resize -/
+example :
+    let env : Env := { W := fun _ => 1, CM := fun _ => false, NFC := id }
+    noEmptyRestore env (init 4 3)
+      [.draw [97], .saveCursor, .setMode [6] true, .resize (some 2) none, .restoreCursor, .linefeed] = true := by
+  decide
 
 theorem dispatch_RIS : escapeDispatch 99 = [.reset] := by rfl
 
